@@ -50,6 +50,10 @@ CLAIMED = {
    technique="bounded exhaustive enumeration of source-configuration histories (<=3 option steps x loader kinds x key trees) on the real App/Configure/viper stack; deep-merge reference model",
    text="All 219660 sequences of <=3 steps over {SetConfigLoader, AddConfigLoader, SetConfig(file), Configure.AddLoaders} x {raw, file, command-line args} x six documents (overlapping and disjoint keys, nested map) are started for real; App.Get of every path of the union tree must equal the deep merge of the individually parsed loader outputs taken files-first then in added order, every source configured before an adding option must still be visible, and a prefix-bound struct plus a prop-bound scalar must agree with App.Get.",
    note="Trusted: yaml parsing of the individual documents for the reference; two file loaders are equally ranked. Outside: >3 steps (thorough 4 on a reduced alphabet), paths that change between map and scalar."),
+ "C16": dict(engine="E4 exhaustive input enumeration through E1 starts", design="§7 C16",
+   technique="bounded exhaustive enumeration of tag texts x configurations x tag kinds on the real container; reference evaluator for acyclic cases; termination decided by a Configure.Get-call budget",
+   text="Every tag of <=2 segments (custom tag: <=3) over eleven literal/placeholder forms (defaults, empty map/list, nested key, nested default) x 56 configurations (absent / plain / referring to the other key / self-referential / self-growing / numeric) x three tag kinds (custom tag text seen by a recording processor, value tag bound to a string, by-name wire tag) is started for real. Acyclic: substituted text / bound value / injected component equal the reference evaluator. Cyclic or self-growing: an error or an empty value; exceeding 5000 Configure.Get calls in one start is non-termination.",
+   note="Trusted: the reference evaluator (innermost-first, re-evaluating configured text); harness binder around the real ViperBinder. Outside: unbalanced ${ fragments, number-like defaults (C17), more than three segments."),
  "C10": dict(engine=E1+" (+E2 scheduler for scan-phase schedules)", design="§7 C10",
    technique="differential bounded exhaustive exploration: each program under all permutations of iteration and registration order plus every single per-call order deviation on the real container; outcome signatures (tied points masked) must coincide",
    text="C08 families under all provider permutations (registration order follows), holders that are candidates for their own field with <=2 other candidates under all permutations of (providers, holder), all 2-node graphs with self loops and 3-node graphs under all 6x6 (iteration, registration) orders, and 2-provider programs under every single non-default answer of every registry enumeration: the signature (success, per-point target, sorted slice contents, ties masked) must be identical across all executions of one program.",
